@@ -80,7 +80,7 @@ def mser_common(ctx, module, theorems):
         for ci, c in enumerate(pr['cases']):
             lines.append('mser ' + ' '.join(GT.ty_tokens(c['ty'])) + ' | ' + ' '.join(GT.val_tokens(c['val'])))
             index.append((pi, ci))
-    rc, model, err = run_lines(driver_path(), lines)
+    rc, model, err = run_model_lines(lines)
     # fixed-size destinations: a second model stream
     into_lines, into_index = [], []
     for pi, pr in enumerate(progs):
@@ -89,7 +89,7 @@ def mser_common(ctx, module, theorems):
                 into_lines.append('mserinto ' + ' '.join(c['fx']['dst']) + ' | ' + ' '.join(GT.val_tokens(c['val'])) + ' | 0102030405060708')
                 into_index.append((pi, ci))
     if into_lines:
-        rc2, into_model, err2 = run_lines(driver_path(), into_lines)
+        rc2, into_model, err2 = run_model_lines(into_lines)
         for (pi, ci), l, m in zip(into_index, into_lines, into_model + [''] * (len(into_lines) - len(into_model))):
             progs[pi]['cases'][ci]['fx']['model'] = m
             progs[pi]['cases'][ci]['fx']['line'] = l
@@ -408,7 +408,7 @@ def e2e_stream(ctx):
                     a['line'] = 'mser ' + ' '.join(GT.ty_tokens(a['ty'])) + ' | ' + ' '.join(GT.val_tokens(a['val']))
                     mser_lines.append(a['line'])
         mser_lines = sorted(set(mser_lines))
-        rc, mout, err = run_lines(driver_path(), mser_lines)
+        rc, mout, err = run_model_lines(mser_lines)
         render = dict((l, bytes.fromhex(parse_kv(o).get('renderpp', ''))) for l, o in zip(mser_lines, mout))
         nfail, nmism, nev, nlines = 0, 0, 0, 0
         fam = {}
